@@ -94,8 +94,11 @@ func decToMinDec(dec float64, latitude bool) string {
 		sign = ' '
 	}
 
-	deg := int(dec)
-	min := (dec - float64(deg)) * 60.0
+	// Round to the nearest 1/10000 minute before splitting into degrees and minutes.
+	// Otherwise a fraction just below a whole degree is printed as 60.0000 minutes.
+	units := math.Round(math.Abs(dec) * 60.0 * 10000.0)
+	deg := math.Floor(units / 600000.0)
+	min := (units - deg*600000.0) / 10000.0
 
 	var format string
 	if latitude {
@@ -104,5 +107,5 @@ func decToMinDec(dec float64, latitude bool) string {
 		format = "%03.0f-%07.4f%c"
 	}
 
-	return fmt.Sprintf(format, math.Abs(float64(deg)), math.Abs(min), sign)
+	return fmt.Sprintf(format, deg, min, sign)
 }
